@@ -8,7 +8,7 @@ import json
 import sys
 import traceback
 
-from vlib import common, findings
+from vlib import common, coverage, findings
 
 
 def main(argv):
@@ -21,6 +21,7 @@ def main(argv):
     rec = common.Recorder(prop, shard)
     ctx = common.Ctx(prop, tier, seed, shard, nshards, budget, rec)
     ctx.findings = findings.Findings(prop)
+    cov = shard == 0 and coverage.start()   # one shard carries the probe
     try:
         mod.shard(ctx)
     except BaseException as exc:  # a crash of the harness itself
@@ -29,6 +30,12 @@ def main(argv):
             .strip()))
         rec.note(traceback.format_exc()[-1500:])
     data = rec.dump()
+    if cov:
+        coverage.stop()
+        try:
+            data['anchor_coverage'] = coverage.report(prop)
+        except Exception as exc:
+            data['anchor_coverage'] = {'error': repr(exc)}
     with open(out, 'w') as f:
         json.dump(data, f, ensure_ascii=True)
     return 0
